@@ -944,9 +944,24 @@ Definition C07_complete (c : ccfg) (r : round) : option string :=
   | _, _ => None
   end.
 
+(* a sync that ran to its end with every ControllerRevision write accepted leaves each rolling child recorded
+   by one revision only (the latest wins a double claim; the loser's record is rewritten without it) *)
+Definition C07_exclusive_after (c : ccfg) (r : round) : option string :=
+  if negb (any_rolling c) then None else
+  match latest_sent c r, r_result r with
+  | Some sent, SDone =>
+      if negb (forallb accepted (rev_events (r_events r))) then None else
+      let claims := flat_map (names_of c) (revs_after c r sent) in
+      if forallb (fun k => Nat.leb (List.length (filter (ck_eqb k) claims)) 1) claims then None
+      else Some "child-recorded-by-two-revisions-after-a-clean-sync"
+  | _, _ => None
+  end.
+
 Definition C07_check := check_with (fun c r =>
   orelse (C07_round c r) (orelse (C07_condition c r) (orelse (C08_no_wait_on_healthy c r)
-         (orelse (C07_views c r) (C07_complete c r))))) proj_all true.
+         (orelse (C07_views c r) (orelse (C07_complete c r)
+         (* every other child keeps following the revision it is assigned to *)
+         (orelse (C09_child_follows_its_revision c r) (C07_exclusive_after c r))))))) proj_all true.
 (* after any crash cut or revision-write fault the rollout still ends where an uninterrupted one does *)
 (* at the end (faults over, a few more syncs done) every rolling child is recorded by at most one revision *)
 Definition C09_final_exclusive (c : ccase) : option string :=
